@@ -8,10 +8,12 @@ from .index import AnalysisError
 
 
 def mkflow(ix, site, local_types=None, which=0, tab=None, env=None,
-           extra_family=None, erase_broadcast=True, forward_attrs=False):
+           extra_family=None, erase_broadcast=True, forward_attrs=False, scalars=()):
     f = ix.func(site, which) if isinstance(site, str) else site
     canon = make_canon(ix, f.cls, extra_family, local_types)
     conv = Conv(tab or Table(), env or {}, canon)
+    if scalars:
+        conv.tab.scalars = [Conv(conv.tab, {}, canon).parse(x) if isinstance(x, str) else x for x in scalars]
     fl = Flow(f, conv)
     fl.conv.erase_broadcast = erase_broadcast
     fl.conv.forward_attrs = forward_attrs
